@@ -193,7 +193,9 @@ def val(t, r, dynmax=3):
         return x, x
     if k == "string":
         if r.random() < 0.12:
-            return ("CAP", r.choice([0, 1, 7, 8, 10, 16, 23])), ""     # String(capacity) reads back as the empty string
+            # String(capacity) reads back as the empty string; capacity 0 is excluded: it has no room for the NUL terminator
+            # the documented format requires
+            return ("CAP", r.choice([1, 2, 7, 8, 10, 16, 23])), ""
         s = r.choice(STRINGS)
         return s, s
     if k == "struct":
